@@ -203,7 +203,10 @@ func runWriter(tb ev.TB, c writerCase) (labels []string, nontrivial bool) {
 			return
 		}
 		if dur >= ctxEnd {
-			if call.Err != nil && !call.IsWriteEs && !errors.Is(call.Err, context.DeadlineExceeded) && !errors.Is(call.Err, context.Canceled) && !wsim.IsClosedPipe(call.Err) {
+			// (the contexts of these calls end by deadline, and the Transport makes a context's deadline the deadline of the
+			// connection: a time-out reported by the connection is that deadline, as in the Transport unit below)
+			var ne net.Error
+			if call.Err != nil && !call.IsWriteEs && !errors.Is(call.Err, context.DeadlineExceeded) && !errors.Is(call.Err, context.Canceled) && !wsim.IsClosedPipe(call.Err) && !(errors.As(call.Err, &ne) && ne.Timeout()) {
 				fail("c09/write-cancel-wrong-error", "WriteMessages call %v whose context ended after %v returned %v, want an error wrapping the context's error", call.ID, ctxEnd, call.Err)
 				return
 			}
